@@ -30,7 +30,7 @@ there). Details of the format may change between Python versions.
 import struct
 import types
 
-from xdis.codetype import Code2, Code3
+from xdis.codetype import Code2, Code3, Code311
 from xdis.cross_types import UnicodeForPython3
 from xdis.version_info import PYTHON3, PYTHON_VERSION_TRIPLE, version_tuple_to_str
 
@@ -142,7 +142,10 @@ class _Marshaller:
         try:
             self.dispatch[type(x)](self, x)
         except KeyError:
-            if isinstance(x, Code3):
+            if isinstance(x, Code311):
+                self.dump_code311(x)
+                return
+            elif isinstance(x, Code3):
                 self.dispatch[Code3](self, x)
                 return
             elif isinstance(x, Code2):
@@ -402,6 +405,65 @@ class _Marshaller:
         self.dump(linetable)
 
     dispatch[Code3] = dump_code3
+
+    @staticmethod
+    def localsplus_info(x):
+        """The 3.11+ merged table of locals, cells and free variables of code object
+        `x`, as (names, kinds), computed like CPython computes it from co_varnames,
+        co_cellvars and co_freevars. If `x` still has the table it was loaded with
+        and that is consistent with these fields, that one is used."""
+        CO_FAST_LOCAL, CO_FAST_CELL, CO_FAST_FREE = 0x20, 0x40, 0x80
+        varnames = tuple(x.co_varnames)
+        cellvars = tuple(x.co_cellvars)
+        freevars = tuple(x.co_freevars)
+        names = varnames + tuple(n for n in cellvars if n not in varnames) + freevars
+        kinds = bytearray()
+        for name in varnames:
+            kinds.append(CO_FAST_LOCAL | (CO_FAST_CELL if name in cellvars else 0))
+        for name in cellvars:
+            if name not in varnames:
+                kinds.append(CO_FAST_CELL)
+        for name in freevars:
+            kinds.append(CO_FAST_FREE)
+        kinds = bytes(kinds)
+        orig_names = getattr(x, "co_localsplusnames", None)
+        orig_kinds = getattr(x, "co_localspluskinds", None)
+        if (
+            orig_names is not None
+            and isinstance(orig_kinds, bytes)
+            and tuple(orig_names) == names
+            and len(orig_kinds) == len(kinds)
+            and all(
+                (a & 0xE0) == (b & 0xE0) for a, b in zip(orig_kinds, kinds)
+            )
+        ):
+            return tuple(orig_names), orig_kinds
+        return names, kinds
+
+    def dump_code311(self, x):
+        # Since 3.11 there is no co_nlocals, and instead of co_varnames,
+        # co_freevars and co_cellvars there is one names table with a kind for
+        # each name; co_qualname and co_exceptiontable are new.
+        self._write(TYPE_CODE)
+        self.w_long(x.co_argcount)
+        self.w_long(x.co_posonlyargcount)
+        self.w_long(x.co_kwonlyargcount)
+        self.w_long(x.co_stacksize)
+        self.w_long(x.co_flags)
+        self.dump(x.co_code)
+        self.dump(x.co_consts)
+        self.dump(x.co_names)
+        localsplusnames, localspluskinds = self.localsplus_info(x)
+        self.dump(localsplusnames)
+        self.dump(localspluskinds)
+        self.dump(x.co_filename)
+        self.dump(x.co_name)
+        self.dump(x.co_qualname)
+        self.w_long(x.co_firstlineno)
+        self.dump(x.co_linetable)
+        self.dump(x.co_exceptiontable)
+
+    dispatch[Code311] = dump_code311
 
     try:
         if PYTHON3:
